@@ -157,6 +157,34 @@ def _stored_alias_offenders(fd):
     return out
 
 
+def _name_alias_offenders(fd):
+    """`x = y` (a plain copy of another local) followed by `x op= ...` while y is still needed: with numpy arrays x and y are one object, so y changes too.  y counts as still
+    needed when it is read again after the copy -- in particular when the copy sits in a loop that y was computed in front of (the next iteration copies the modified y)."""
+    nodes = []
+    for st in fd.body: nodes.extend(ast.walk(st))
+    loops = [n for n in nodes if isinstance(n, (ast.For, ast.While))]
+
+    def loops_around(node):
+        return [l for l in loops if any(x is node for x in ast.walk(l)) and l is not node]
+    out = []
+    copies = [n for n in nodes if isinstance(n, ast.Assign) and len(n.targets) == 1 and isinstance(n.targets[0], ast.Name) and isinstance(n.value, ast.Name)]
+    for cp in copies:
+        x, y = cp.targets[0].id, cp.value.id
+        if x == y: continue
+        augs = [n for n in nodes if isinstance(n, ast.AugAssign) and isinstance(n.target, ast.Name) and n.target.id == x and n.lineno >= cp.lineno]
+        if not augs: continue
+        # x rebound to a fresh value between the copy and the update?  (only the simplest pattern is recognised; anything else is reported)
+        y_defs = [n for n in nodes if isinstance(n, ast.Assign) and any(isinstance(t, ast.Name) and t.id == y for t in n.targets)]
+        y_is_fresh_each_time = any(l for l in loops_around(cp) if any(any(d_ is z for z in ast.walk(l)) for d_ in y_defs))      # y recomputed inside the same loop
+        reads_after = [n for n in nodes if isinstance(n, ast.Name) and n.id == y and isinstance(n.ctx, ast.Load) and n is not cp.value and n.lineno > cp.lineno]
+        in_loop_reuse = bool(loops_around(cp)) and not y_is_fresh_each_time
+        if reads_after or in_loop_reuse:
+            a_ = augs[0]
+            why = 'is read again afterwards' if reads_after else 'is copied again on the next pass of the loop'
+            out.append((a_.lineno, f'{ast.unparse(a_)[:50]}` after `{x} = {y}` while `{y}` {why}', y))
+    return out
+
+
 def _only_fresh_actuals(mod, funcs, helper, pname, depth=0):
     """True iff `helper` is private to its module (leading underscore, not exported), is called somewhere in it, and at every call site the argument bound to `pname` is a name
     the caller bound to a fresh object (a literal, a constructor / numpy creation call), not one of the caller's own parameters or an alias of one (checked transitively)."""
@@ -207,6 +235,8 @@ def inplace_lint(chk, repo, rule, paths, floor_funcs=1):
         for fd in funcs:
             if isinstance(fd, ast.FunctionDef):
                 nfunc += 1
+                for ln, txt, src_ in _name_alias_offenders(fd):
+                    offenders.append(f'{fd.name} line {ln}: `{txt}: with array values the two names are one object and the update changes both')
                 for ln, txt, cont in _stored_alias_offenders(fd):
                     offenders.append(f'{fd.name} line {ln}: `{txt}` updates in place an object that is still stored in `{cont}`, which outlives the function: with array values the stored entry changes too')
                 for ln, txt, name in _inplace_offenders(fd):
